@@ -261,6 +261,11 @@ def expected_area(spec, ctx, sx, sy, d):
                 out['_converged'] = Tconv
             else:
                 dist = ridge_distance(spec, ctx, sx, sy, m0)
+                if spec['sph'] and dist > 0:
+                    # the library takes the great circle distance from the cosine of the angle: for a small angle theta its relative
+                    # error is ~eps/theta^2 (observed 1.1e-12 at 0.18 degrees)
+                    theta = dist / (ctx.R - m0)
+                    out['_extra_tol'] = 1e-15 / (theta * theta)
                 u = spreading_velocity(spec, sx, sy) / YEAR
                 age = dist / u
                 if name == 'half space model':
@@ -778,12 +783,13 @@ def main(tier, seed, replay):
                 tol = 1e-9 + (5e-6 / max(abs(p['h']), 100.0) if isinstance(p, dict) and 'h' in p else 0.0)
             if exp.get('_loose'):
                 tol = 1e-10
+            tol += exp.get('_extra_tol', 0.0)
             if '_converged' in exp:
                 # the documentation names the model, not the number of terms: judge the formula where the tail beyond the
                 # implementation's 100 terms is negligible, and the identically truncated sum elsewhere
                 T100 = exp[(1, 0, 0)][0]
                 Tconv = exp['_converged']
-                tol = 1e-9
+                tol = 1e-9 + exp.get('_extra_tol', 0.0)
                 if abs(T100 - Tconv) <= 1e-9 * abs(Tconv):
                     exp[(1, 0, 0)] = [Tconv]
             compare(V, 'formula:' + label.rsplit(':', 1)[0], label, p, exp, got, PROPS, tol, detail)
